@@ -974,6 +974,11 @@ func accessConfig(t *rapid.T, p *Profile) WorldConfig {
 		cfg.PUTMethod = "set"
 		cfg.DELETEMethod = "delete"
 	}
+	if rapid.IntRange(0, 4).Draw(t, "headerauth") == 0 {
+		// every HTTP request first makes an auth call, which may set a token on
+		// the request's own connection (and renew it while the request is served)
+		cfg.HeaderAuth = "auth.t.login"
+	}
 	return cfg
 }
 
@@ -1001,7 +1006,7 @@ func init() {
 	register(&SimProp{
 		ID: "C05",
 		Profiles: []*Profile{func() *Profile {
-			p := accessProfile("c05-call", map[string]int{"trigburst": 8, "deleteburst": 5, "call": 26, "new": 5, "httppost": 7, "auth": 4, "subscribe": 12, "mutate": 8},
+			p := accessProfile("c05-call", map[string]int{"trigburst": 8, "deleteburst": 5, "httptoken": 6, "call": 26, "new": 5, "httppost": 7, "auth": 4, "subscribe": 12, "mutate": 8},
 				map[string]int{"grant": 6, "calllist": 12, "callonly": 3, "deny": 2, "denied": 2, "err": 1, "timeout": 1})
 			// a comma is a valid character of a method name: such a method is an
 			// entry of no list, also not of the list it spells
